@@ -13,7 +13,8 @@ An *execution* is a flat list of events (`Ev`).  What the script/native code doe
 it is the universally quantified event list.  What the *VM* does in reaction to an event is
 modelled exactly as written:
 
-* `popTo`/`popFrame`     = `pop_frame`
+* `popTo`/`popFrame`     = `pop_frame` (incl. the truncation of the builder stacks to the frame's
+                           `builder_counts`, fix 97373d1)
 * `unwindGo`/`unwind`    = `pop_call_stack_on_error(error, allow_catch)`
 * `raiseGo`              = the `Err` arm of `execute_instructions`, followed — when the error is not
                            caught — by what the Rust caller of `execute_instructions` does
@@ -52,10 +53,15 @@ structure Frame where
   base : Nat
   /-- `required_registers`, set by `NewFrame` -/
   required : Nat := 0
-  /-- `catch_stack`: (error register, catch ip), head = innermost open `try` -/
-  catches : List (Nat × Nat) := []
+  /-- `catch_stack`: (error register, catch ip, (sequence, string) builder counts at `TryStart`),
+      head = innermost open `try` -/
+  catches : List (Nat × Nat × Nat × Nat) := []
   /-- `execution_barrier` -/
   barrier : Bool := false
+  /-- `builder_counts.0`: `sequence_builders.len()` when the frame was pushed (fix 97373d1) -/
+  seq0 : Nat := 0
+  /-- `builder_counts.1`: `string_builders.len()` when the frame was pushed -/
+  str0 : Nat := 0
   deriving DecidableEq, Repr, Inhabited
 
 /-- `struct KotoVm` (bookkeeping part) + the shared `module_cache`. -/
@@ -182,11 +188,15 @@ def truncate (len : Nat) (vm : VM) : VM := { vm with regs := min vm.regs (vm.bas
 
 /-- `push_frame(chunk, ip, frame_base, ..)` followed by `frame_mut().execution_barrier = barrier` -/
 def pushFrame (fb : Nat) (barrier : Bool) (vm : VM) : VM :=
-  { vm with stack := { base := vm.base + fb, barrier := barrier } :: vm.stack, base := vm.base + fb }
+  { vm with
+    stack := { base := vm.base + fb, barrier := barrier, seq0 := vm.seq, str0 := vm.str } :: vm.stack,
+    base := vm.base + fb }
 
 /-- `pop_frame` when the call stack is `popped :: rest`. The `Bool` is "execution stops"
-(`Ok(Some(value))`). -/
+(`Ok(Some(value))`). Since fix 97373d1 the builders the frame left unfinished are discarded first:
+`sequence_builders.truncate(builder_counts.0)`, `string_builders.truncate(builder_counts.1)`. -/
 def popTo (popped : Frame) (rest : List Frame) (vm : VM) : VM × Bool :=
+  let vm := { vm with seq := min vm.seq popped.seq0, str := min vm.str popped.str0 }
   match rest with
   | [] => ({ vm with stack := [], base := 0, minRegs := 0 }, true)
   | r :: _ =>
@@ -217,7 +227,9 @@ def unwindGo (allowCatch : Bool) : List Frame → VM → VM × Option (Nat × Na
   | [], vm => (vm, none)
   | f :: rest, vm =>
     match allowCatch, f.catches with
-    | true, c :: _ => (vm, some c)
+    | true, c :: _ =>
+      -- the builders opened in the try block are discarded (fix 97373d1)
+      ({ vm with seq := min vm.seq c.2.2.1, str := min vm.str c.2.2.2 }, some (c.1, c.2.1))
     | _, _ =>
       if f.barrier then (vm, none)
       else unwindGo allowCatch rest (popTo f rest vm).1
@@ -333,7 +345,8 @@ def step (ev : Ev) (st : St) : St :=
     | .newFrame n =>
       let vm := modTop (fun f => { f with required := n }) st.vm
       { st with vm := { vm with minRegs := vm.base + n, regs := vm.base + n } }
-    | .tryStart r ip => { st with vm := modTop (fun f => { f with catches := (r, ip) :: f.catches }) st.vm }
+    | .tryStart r ip =>
+      { st with vm := modTop (fun f => { f with catches := (r, ip, st.vm.seq, st.vm.str) :: f.catches }) st.vm }
     | .tryEnd => { st with vm := modTop (fun f => { f with catches := f.catches.tail }) st.vm }
     | .call fb argRegs => { st with vm := callKoto fb argRegs false st.vm }
     | .callNative fb => { st with conts := .native fb none :: st.conts }
@@ -445,7 +458,7 @@ a no-op on the empty call stack). -/
 
 /-- the state of a freshly created generator VM: one frame without barrier -/
 def genInit (args : Nat) : VM :=
-  { regs := 1 + args, stack := [{ base := 0 }] }
+  { regs := 1 + args, stack := [{ base := 0 }] }  -- builder counts (0, 0): a fresh VM
 
 /-- `continue_running` reports the end of the iteration without running anything -/
 def genFinished (vm : VM) : Bool := vm.stack.isEmpty
